@@ -223,7 +223,7 @@ class MLPCond(nn.Module):
     def __init__(self, i, o, ctx):
         super().__init__()
         self.ctx = ctx
-        self.net = nets.MLP([i + (ctx or 0)], [o], [5], activation=torch.tanh)
+        self.net = nets.MLP([i + (ctx or 0)], [o], [5, 4, 3], activation=torch.tanh)  # several hidden layers (a ModuleList inside MLP)
 
     def forward(self, x, context=None):
         if context is not None:
